@@ -1255,7 +1255,7 @@ func nextOps(m *model, nCustom int, reducedCombos bool) []Op {
 // TestC17Exhaustive enumerates every history up to VERIF_C17_LEN over the
 // alphabet of nextOps, for the pipelines of this shard.
 func TestC17Exhaustive(t *testing.T) {
-	evid.Rule("C17: histories of Register/Before/After/Replace/Remove (also through Match(true/false), and Replace/Remove of names that are not registered) over built-ins, customs c1-c3, an unknown name and '*' for each of the six pipelines (exhaustive to the stated length, random to length 8); after every step the pipeline is executed twice - for a clean statement and for one that already carries an error - and both runs must fire the same callbacks; non-trivial = at least two registrations carrying a Before/After that names a built-in, a custom callback or '*'; distinct = pipeline + operation sequence")
+	evid.Rule("C17: histories of Register/Before/After/Replace/Remove (also through Match(true/false), and Replace/Remove of names that are not registered) over built-ins, customs c1-c3 (random histories also C1, which differs from c1 only in letter case), an unknown name and '*' for each of the six pipelines, registered through the opened handle or a handle derived from it (Session, NewDB session, chain, SkipDefaultTransaction session) (exhaustive to the stated length, random to length 8); after every step the pipeline is executed twice - for a clean statement and for one that already carries an error - and both runs must fire the same callbacks; non-trivial = at least two registrations carrying a Before/After that names a built-in, a custom callback or '*'; distinct = pipeline + operation sequence")
 	if p := harness.ReplayPath(); p != "" {
 		replayOne(t)
 		return
